@@ -194,6 +194,21 @@ func dePrefix(prop string) string {
 	return p
 }
 
+// stripImportant takes one trailing "!important" (ASCII case-insensitive, white space allowed around the "!") off a
+// declaration value, as a browser does before it reads the value.
+func stripImportant(v string) string {
+	t := strings.TrimRight(v, " \t\n\r\f")
+	l := obs.ASCIILower(t)
+	if !strings.HasSuffix(l, "important") {
+		return v
+	}
+	t = strings.TrimRight(t[:len(t)-len("important")], " \t\n\r\f")
+	if !strings.HasSuffix(t, "!") || strings.HasSuffix(t, "\\!") {
+		return v
+	}
+	return strings.TrimRight(t[:len(t)-1], " \t\n\r\f")
+}
+
 func styleRuleAccepts(r spec.StyleRule, val string) bool {
 	switch {
 	case r.Handler != nil:
@@ -232,7 +247,7 @@ func judgeStyleValue(v *spec.View, el, style string) (sig, what string) {
 		if len(rules) == 0 {
 			return "property", fmt.Sprintf("declaration %s kept on <%s> although property %q is not allowlisted", run.Q(d.prop+": "+d.val), el, prop)
 		}
-		val := obs.ASCIILower(obs.CSSDecode(d.val))
+		val := obs.ASCIILower(obs.CSSDecode(stripImportant(d.val)))
 		ok := false
 		for _, r := range rules {
 			if styleRuleAccepts(r, val) {
@@ -280,7 +295,7 @@ func expectedStyle(v *spec.View, el string, decls []cssDecl) string {
 			}
 			rules = append(rules, v.GlobStyle[full]...)
 		}
-		val := obs.ASCIILower(d.val)
+		val := obs.ASCIILower(stripImportant(d.val))
 		for _, r := range rules {
 			if styleRuleAccepts(r, val) {
 				keep = append(keep, d.prop+": "+d.val)
@@ -306,7 +321,7 @@ func dirty(text string) declFrag { return declFrag{text: text} }
 var c10Decls = []declFrag{
 	df("color", "red"), df("color", "blue"), df("COLOR", "RED"), df("background", "red"), df("foo-bar", "x"),
 	df("text-align", "center"), df("-webkit-color", "green"), df("width", "1px"), df("width", "3px"), df("font-family", "arial"),
-	df("color", "url(javascript:x)"), df("mso-color", "red"),
+	df("color", "url(javascript:x)"), df("mso-color", "red"), df("color", "red !important"), df("width", "1px !important"), df("color", "purple !important"),
 	dirty(`color: red !important`), dirty(`color: r\65 d`), dirty(`color: \72 ed`), dirty(`color: r\20 ed`), dirty(`color: \000072ed`),
 	dirty(`font-family: \1F600 expression(alert(1))`), dirty(`font-family: a\d800 b`), dirty(`color: \5c 72 ed`), dirty(`color: \75rl(javascript:x)`),
 	dirty(`color: red /* c */`), dirty(`/* c */`), dirty(`content: "a;b"`), dirty(`color: url(a;b)`), dirty(`color`), dirty(`: red`),
